@@ -1400,6 +1400,10 @@ func init() {
 						}
 					}
 				}
+				// the pipe interpreter resolves the head of a pipe the same way
+				if shortName(fn) == "(*vuego.Vue).evalPipe" {
+					classifies = true
+				}
 				if !classifies || len(resolves) == 0 {
 					continue
 				}
